@@ -177,6 +177,8 @@ def expected_trace(case):
             names += ['Id', 'dot']
         elif op == 'qr':
             names += ['qr', 'getitem']
+        elif op == 'qr_twice':
+            names += ['qr', 'getitem', 'Id', 'mul', 'getitem', 'add']
         elif op == 'qr_full':
             names += ['qr_full', 'getitem'] + (['getitem'] if ins[2] == 0 else [])
         elif op == 'chol_spd':
@@ -321,7 +323,7 @@ def eval_spec(draw, pts, K, kinds=('nd', 'utpm'), Dmax=4, plain_dtypes=False, li
 @st.composite
 def replay_cases(draw, tier, first=None, families=None, max_len=8, min_len=1):
     K = 4
-    pr = draw(PG.programs(n_inputs=(1, 2), max_len=max_len, min_len=min_len, families=families, out='any', K=K, first=first))
+    pr = draw(PG.programs(n_inputs=(1, 2), max_len=max_len, min_len=min_len, families=families, out='any', K=K, first=first, list_index=True))
     case = dict(pr)
     rec = draw(eval_spec(pr['pts'], K, Dmax=2))
     rec['idx'] = [0] * len(rec['idx'])
@@ -373,7 +375,7 @@ def _classes(case):
 
 SINGLE = ['un', 'kink', 'special', 'unp', 'bin', 'bcast', 'binc', 'pow', 'powreg', 'neg', 'get', 'T', 'reshape', 'buf', 'set', 'rmw', 'sum', 'prod', 'trace',
           'dot', 'dotc', 'dotnd', 'outer', 'inv', 'solve', 'det', 'logdet', 'qr', 'chol', 'eigh', 'svd', 'lu', 'fft', 'tile', 'diag',
-          'symvec', 'vecsym', 'cplx']
+          'symvec', 'vecsym', 'cplx', 'bufdet']
 CHEAP_TAIL = ['un', 'bin', 'binc', 'neg', 'get', 'set']
 
 
